@@ -1,6 +1,7 @@
 /* C03 / C13 / C14 (T): Hello and the unique-name mint (bus/driver.c).
  *   harness_hello   : bus_driver_handle_hello          loop-free -> P (P-stub route, pristine TU)
  *   harness_welcome : bus_driver_send_welcome_message  loop-free -> P
+ *   harness_owner_changed : bus_driver_send_service_owner_changed  loop-free -> P  (the broadcast NameOwnerChanged built by the bus)
  *   harness_mint    : create_unique_client_name        while(TRUE) loop closed by the loop contract of contracts/c03_driver.ovl
  *                     (route hybrid); the counters are static locals: every value admitted by their invariant is covered,
  *                     not only the first call.
@@ -24,7 +25,7 @@ static void hello_message (struct ts_conn *from)
   M.serial = nondet_uint (); __CPROVER_assume (M.serial != 0); M.reply_serial = 0; M.type = DBUS_MESSAGE_TYPE_METHOD_CALL;
   M.sender = from->active ? TS_SND_UNIQUE : TS_SND_INACTIVE; M.sender_of = from->active ? from : NULL; M.dest = TS_DST_BUS; M.dest_of = NULL;
   M.unknown_stripped = 1; M.container_cleared = 1; M.local_disconnected = 0; M.auto_start = nondet_bool (); M.no_reply = nondet_bool (); M.has_fds = 0; M.is_hello = 1;
-  M.error_name = TS_ERR_NONE; M.in_reply_to = NULL; M.has_string_arg = 0; M.string_arg = NULL; M.refs = 1;
+  M.error_name = TS_ERR_NONE; M.in_reply_to = NULL; M.has_string_arg = 0; M.string_arg = NULL; M.n_string_args = 0; M.refs = 1;
 }
 
 /* ------------------------------------------------------------------------------------------------------------------ */
@@ -89,7 +90,7 @@ void harness_welcome (void)
   __CPROVER_assert (ts_new_msgs_used <= 1 && G.from_driver <= 1, "post.one-reply");
   /* S (Hello): reply argument 0, STRING: "Unique name assigned to the connection" */
   __CPROVER_assert (IMP (G.from_driver == 1, G.from_driver_msg == w && G.from_driver_to == conn && w->type == DBUS_MESSAGE_TYPE_METHOD_RETURN && w->in_reply_to == &M && w->reply_serial == M.serial &&
-                                            w->has_string_arg && w->string_arg == conn->name),
+                                            w->has_string_arg && w->n_string_args == 1 && w->string_arg == conn->name),
                     "post.C03.welcome-shape: the reply to Hello is a METHOD_RETURN to that call whose single STRING argument is the connection's unique name, sent through the driver's send path");
   __CPROVER_assert (IMP (ret, G.from_driver == 1), "post.C03.welcome-sent");
   __CPROVER_assert (IMP (ts_new_msgs_used == 1, w->refs == 0) && M.refs == 1, "post.unref: the reply built here is released exactly once");
@@ -124,4 +125,31 @@ void harness_mint (void)
   if (!ret) REACH ("oom");
   if (ret && verif_mint_tok_minor == 0 && verif_mint_major0 > 0) REACH ("major-rollover");
   if (ret && verif_mint_major0 == 0) REACH ("very-first-name");
+}
+
+/* ------------------------------------------------------------------------------------------------------------------ */
+void harness_owner_changed (void)
+{
+  ts_reset ();
+  any_conn (&ts_conns[0], 0); any_conn (&ts_conns[1], 1); any_conn (&ts_conns[2], 2); any_conn (&ts_conns[3], 3);
+  ts_transaction = &transaction_obj;
+  DBusError err; err.name = NULL; err.message = NULL;
+  const char *old_owner = nondet_bool () ? ts_name1 : NULL, *new_owner = nondet_bool () ? ts_name2 : NULL;
+
+  dbus_bool_t ret = bus_driver_send_service_owner_changed (ts_s_other, old_owner, new_owner, (BusTransaction *) ts_transaction, &err);
+
+  struct ts_msg *sig = &ts_new_msgs[0];
+  __CPROVER_assert (ret == 0 || ret == 1, "post.bool");
+  __CPROVER_assert (IMP (!ret, err.name != NULL) && IMP (ret, err.name == NULL), "post.error-iff-false");
+  /* S: bus-originated messages carry sender org.freedesktop.DBus;  C18: captured once, before routing */
+  __CPROVER_assert (IMP (G.captures + G.routed > 0, ts_new_msgs_used == 1 && TS_FROM_DRIVER (sig) && sig->type == DBUS_MESSAGE_TYPE_SIGNAL && sig->n_string_args == 3 && sig->string_arg == ts_s_other),
+                    "post.C03.driver-signal: what is captured and routed is a signal from org.freedesktop.DBus with three string arguments, the first being the name");
+  __CPROVER_assert (G.captures <= 1 && G.routed <= 1 && IMP (G.routed == 1, G.captures == 1 && G.capture_ok && G.captured_msg == sig && G.captured_sender == NULL && G.captured_addressed == NULL && G.routed_addressed == NULL),
+                    "post.C18.capture-then-route: captured exactly once as a broadcast of the bus, then routed once as a broadcast");
+  __CPROVER_assert (IMP (ret, G.routed == 1 && G.routed_ok), "post.routed");
+  __CPROVER_assert (IMP (ts_new_msgs_used == 1, sig->refs == 0), "post.unref: the signal built here is released exactly once on every path");
+  if (ret) REACH ("broadcast-routed");
+  if (!ret && ts_new_msgs_used == 0) REACH ("oom-building");
+  if (!ret && G.captures == 1 && G.routed == 0) REACH ("oom-capturing");
+  if (!ret && G.routed == 1) REACH ("routing-failed");
 }
